@@ -19,7 +19,7 @@ RULE = (
 )
 ASSUMPTIONS = ["scipy.stats.norm/cauchy/logistic.logpdf and scipy.integrate.quad are trusted references"]
 TIMEOUT = {"quick": 300, "thorough": 1500}
-REQUIRED = {"post:__call__": 300, "post:gradient": 300, "normalisation_integrals": 20, "cases:far_tail": 30}
+REQUIRED = {"post:__call__": 300, "post:gradient": 300, "normalisation_integrals": 20, "cases:far_tail": 30, "in_place_theta_updates": 100}
 
 SQ3_PI = np.sqrt(3.0) / np.pi
 
@@ -123,9 +123,15 @@ def run_job(job, rec):
         y = pred_true + zres * s
         rec.context = {"case": c, "class": name, "n": n, "model": model.kind, "regime": regime, "sigma_base": base}
 
-        form = str(rng.choice(["array", "list", "scalar"])) if n == 1 else str(rng.choice(["array", "list"]))
+        form = str(rng.choice(["array", "list", "scalar"])) if n == 1 else str(rng.choice(["array", "list", "row2d", "nested", "column2d"]))
         if form == "list":
             ya, sa = [float(v) for v in y], [float(v) for v in s]
+        elif form == "row2d":       # shapes the constructor accepts and squeezes
+            ya, sa = y.reshape(1, n).copy(), s.reshape(1, n).copy()
+        elif form == "column2d":
+            ya, sa = y.reshape(n, 1).copy(), s.copy()
+        elif form == "nested":
+            ya, sa = [[float(v) for v in y]], [float(v) for v in s]
         elif form == "scalar":
             ya, sa = float(y[0]), float(s[0])
         else:
@@ -139,6 +145,7 @@ def run_job(job, rec):
         rec.case(digest(name, y, s, pred), nontrivial=bool(np.any(y != pred)))
         rec.count("cases:" + regime)
         rec.count("cases:" + name)
+        rec.count("forms:" + form)
         if c < 2:
             rec.sample({**rec.context, "y_head": y[:3], "sigma_head": s[:3], "theta": theta})
 
@@ -172,6 +179,24 @@ def run_job(job, rec):
         cg = guarded(L.cost_gradient, theta)
         rec.check((not isinstance(cg, Raised)) and np.array_equal(np.asarray(cg), -g), "cost-gradient-not-negative",
                   "cost_gradient is not the exact negative of gradient", rec.context)
+
+        # ---- history: the caller re-uses one parameter array and modifies it in place between calls
+        if c % 2 == 0:
+            th = np.array(theta, dtype=float)
+            for rep in range(2):
+                k0 = int(rng.integers(th.size))
+                th[k0] += (0.05 + 0.1 * rng.random()) * max(abs(th[k0]), 0.1)
+                pr = model(th)
+                tr = ref_terms(name, y, pr, s)
+                v2 = guarded(L, th)
+                g2 = guarded(L.gradient, th)
+                rec.count("in_place_theta_updates")
+                tol2 = 64 * np.finfo(float).eps * (np.abs(tr).sum() + np.abs(np.log(s)).sum() + n)
+                rec.check((not isinstance(v2, Raised)) and abs(float(v2) - float(tr.sum())) <= tol2, "stale-after-in-place-update",
+                          lambda: f"{name}: after the parameter array was modified in place the log-likelihood is {v2!r}, the reference at the new values is {float(tr.sum())!r}", rec.context)
+                c2 = ref_dterm_dpred(name, y, pr, s)[:, None] * model.jac(th)
+                okg = (not isinstance(g2, Raised)) and bool(np.all(np.abs(np.asarray(g2, float) - c2.sum(axis=0)) <= 1e-11 * np.abs(c2).sum(axis=0) + 1e-300))
+                rec.check(okg, "stale-after-in-place-update", lambda: f"{name}: gradient after an in-place parameter update {g2!r} != reference {c2.sum(axis=0)}", rec.context)
 
         # ---- cross-check: Richardson differences of the real __call__ (moderate residuals only)
         if regime == "core":
